@@ -66,12 +66,20 @@ var c18Pieces = []string{
 }
 var c18Plain = []string{"a", "b", "f", "main", "foo", "Bar", "x1", "_", "0", "7", "pkg", "run", "T", "go"}
 
+// c18NoNL: generate names without newline bytes (most callgrind cases: a newline in any name puts
+// the whole case into the F20 class)
+var c18NoNL bool
+
 func c18Str(r *Rng, meta bool) string {
 	n := 1 + r.Intn(4)
 	var sb strings.Builder
 	for i := 0; i < n; i++ {
 		if meta && r.P(1, 2) {
-			sb.WriteString(PickS(r, c18Pieces))
+			pc := PickS(r, c18Pieces)
+			if c18NoNL && strings.Contains(pc, "\n") {
+				pc = "\\"
+			}
+			sb.WriteString(pc)
 		} else {
 			sb.WriteString(PickS(r, c18Plain))
 		}
@@ -84,7 +92,11 @@ var c18Nasty = []string{"\\", "a\\", "\"", "a\"b", "\\\"", "x\ny", "\\n", "a\\nb
 
 func c18Name(r *Rng, meta bool) string {
 	if meta && r.P(1, 4) {
-		return PickS(r, c18Nasty)
+		s := PickS(r, c18Nasty)
+		if c18NoNL {
+			s = strings.ReplaceAll(s, "\n", "\"")
+		}
+		return s
 	}
 	return c18Str(r, meta)
 }
@@ -481,9 +493,10 @@ type c18ROpts struct {
 	callTree, dropNeg, trim bool
 	gran                     string
 	title                    string
+	nodeCount                int
 }
 
-func c18Report(r *Rng, p *profile.Profile, format int, o c18ROpts) *report.Report {
+func c18Report(p *profile.Profile, format int, o c18ROpts) *report.Report {
 	switch o.gran {
 	case "lines":
 		p.Aggregate(true, true, true, true, false, false)
@@ -500,7 +513,7 @@ func c18Report(r *Rng, p *profile.Profile, format int, o c18ROpts) *report.Repor
 	ro := report.Options{OutputFormat: format, CallTree: o.callTree, DropNegative: o.dropNeg, OutputUnit: "minimum",
 		NumLabelUnits: numUnits, Title: o.title, NodeFraction: 0, EdgeFraction: 0, NodeCount: 0}
 	if o.trim {
-		ro.NodeCount = 1 + r.Intn(3)
+		ro.NodeCount = o.nodeCount
 		ro.NodeFraction = 0.05
 		ro.EdgeFraction = 0.01
 	}
@@ -545,11 +558,11 @@ func runC18(c *Ctx) {
 	for i := 0; i < c.Budget(350, 30000); i++ {
 		po := c18POpts{meta: !r.P(1, 5), fileMeta: r.P(1, 25), unitMeta: r.P(1, 25), diff: r.P(1, 3)}
 		p := c18Profile(r, po)
-		ro := c18ROpts{callTree: r.P(1, 3), dropNeg: r.P(1, 4), trim: r.P(1, 3), gran: PickS(r, grans)}
+		ro := c18ROpts{callTree: r.P(1, 3), dropNeg: r.P(1, 4), trim: r.P(1, 3), gran: PickS(r, grans), nodeCount: 1 + r.Intn(3)}
 		if r.P(1, 2) {
 			ro.title = c18Name(r, po.meta)
 		}
-		rpt := c18Report(r, p, report.Dot, ro)
+		rpt := c18Report(p, report.Dot, ro)
 		g, cfg := report.GetDOT(rpt)
 		tags := []string{"gran:" + ro.gran}
 		if ro.callTree {
@@ -560,6 +573,96 @@ func runC18(c *Ctx) {
 		}
 		dotCase("dot-report", g, &graph.DotAttributes{}, cfg, tags...)
 	}
+
+	// callgrind
+	{
+		// F20: a function name with a newline
+		p := c18CGWitness("a\nfn=(7)", 0x1000, 0x1000, 0x1000)
+		c18CGCase(c, "finding-F20", p, c18ROpts{gran: "functions"})
+		// F11: previous node at 0x1000, caller at 0x3000, callee at 0x3000
+		p = c18CGWitness("callee", 0x3000, 0x3000, 0x1000)
+		c18CGCase(c, "finding-F11", p, c18ROpts{gran: "addresses"})
+	}
+	for i := 0; i < c.Budget(500, 30000); i++ {
+		c18NoNL = !r.P(1, 12)
+		po := c18POpts{meta: !r.P(1, 5), fileMeta: r.P(1, 2), unitMeta: r.P(1, 6), diff: r.P(1, 5)}
+		p := c18Profile(r, po)
+		gran := PickS(r, []string{"functions", "functions", "lines", "files", "filefunctions", "addresses", "addresses"})
+		ro := c18ROpts{callTree: r.P(1, 3), dropNeg: r.P(1, 6), gran: gran}
+		tags := []string{"gran:" + gran}
+		if ro.callTree {
+			tags = append(tags, "call_tree")
+		}
+		c18CGCase(c, "cg-report", p, ro, tags...)
+		c18NoNL = false
+	}
+}
+
+// three functions; main calls f and g; with "addresses" granularity the nodes sit at the given addresses
+func c18CGWitness(fname string, a1, a2, a3 uint64) *profile.Profile {
+	m := &profile.Mapping{ID: 1, Start: 0x1000, Limit: 0x9000, File: "/bin/prog"}
+	mk := func(id uint64, name string) *profile.Function {
+		return &profile.Function{ID: id, Name: name, SystemName: name, Filename: name + ".go"}
+	}
+	f1, f2, f3 := mk(1, fname), mk(2, "main"), mk(3, "other")
+	l1 := &profile.Location{ID: 1, Mapping: m, Address: a1, Line: []profile.Line{{Function: f1, Line: 3}}}
+	l2 := &profile.Location{ID: 2, Mapping: m, Address: a2 + 0x10, Line: []profile.Line{{Function: f2, Line: 7}}}
+	l3 := &profile.Location{ID: 3, Mapping: m, Address: a3, Line: []profile.Line{{Function: f3, Line: 9}}}
+	return &profile.Profile{
+		SampleType: []*profile.ValueType{{Type: "cpu", Unit: "ms"}},
+		Sample: []*profile.Sample{
+			{Location: []*profile.Location{l1, l2}, Value: []int64{10}},
+			{Location: []*profile.Location{l3}, Value: []int64{40}},
+			{Location: []*profile.Location{l2}, Value: []int64{5}}},
+		Mapping: []*profile.Mapping{m}, Location: []*profile.Location{l1, l2, l3}, Function: []*profile.Function{f1, f2, f3},
+	}
+}
+
+func c18DumpCG(st, unit string, nodes []report.VerifCGNode, nondet bool) Term {
+	var ns []Term
+	for _, n := range nodes {
+		var es []Term
+		for _, e := range n.Out {
+			es = append(es, L(PS(e.File), PS(e.Name), ZU(e.Addr), ZI(e.Line), Z(e.Cost)))
+		}
+		ns = append(ns, L(PS(n.Obj), PS(n.File), PS(n.Name), ZU(n.Addr), ZI(n.Line), Z(n.Cost), L(es...)))
+	}
+	return L(S("cg"), PS(st), PS(unit), Bool(nondet), L(ns...))
+}
+
+func c18PrintCG(rpt *report.Report) (obs Term) {
+	defer func() {
+		if e := recover(); e != nil {
+			obs = L(S("panic"), S(fmt.Sprint(e)))
+		}
+	}()
+	var b bytes.Buffer
+	if err := report.Generate(&b, rpt, nil); err != nil {
+		return L(S("error"), S(err.Error()))
+	}
+	return PS(b.String())
+}
+
+// c18CGCase: the graph is extracted twice (before and after the print) from copies of the profile;
+// if the two extractions differ the node/edge order is not a function of the profile (ties between
+// nodes sharing a NodeInfo, C08's domain) and the comparison is skipped (class 900).
+func c18CGCase(c *Ctx, gen string, p *profile.Profile, ro c18ROpts, tags ...string) {
+	st, unit, n1 := report.VerifCallgrindGraph(c18Report(p.Copy(), report.Callgrind, ro))
+	obs := c18PrintCG(c18Report(p.Copy(), report.Callgrind, ro))
+	_, _, n2 := report.VerifCallgrindGraph(c18Report(p.Copy(), report.Callgrind, ro))
+	in1, in2 := c18DumpCG(st, unit, n1, false), c18DumpCG(st, unit, n2, false)
+	nondet := Render(in1) != Render(in2)
+	if nondet {
+		in1 = c18DumpCG(st, unit, n1, true)
+		tags = append(tags, "nondet-order")
+	}
+	nt := false
+	for _, n := range n1 {
+		if len(n.Out) > 0 {
+			nt = true
+		}
+	}
+	c.Case(gen, in1, obs, nt && len(n1) > 1, append(tags, "op:cg")...)
 }
 
 // one node, one self edge
